@@ -347,6 +347,17 @@ class FunctionAnalyser(NodeVisitor):
         for target in node.targets:
             self.context.remove_identifiers_from_context(target)
 
+    def visit_ExceptHandler(self, node: ast.ExceptHandler) -> None:
+        """Visit ast.ExceptHandler(type, name, body)."""
+        # NOTE `except E as name` defines name in the handler and undefines it after
+        if node.name is not None:
+            self.context.add(Name(node.name, token=node))
+
+        self.generic_visit(node)
+
+        if node.name is not None:
+            self.context.remove(node.name)
+
     def _visit_for_loop(self, node: ast.For | ast.AsyncFor) -> None:
         self.context.add_identifiers_to_context(node.target)
         self.generic_visit(node)
